@@ -10,6 +10,7 @@ import io
 import json
 import os
 import random
+import subprocess
 import sys
 
 from simkit import core, nbgen
@@ -114,6 +115,8 @@ def generate(rng, index, cfg):
           "line_faults": rng.randint(0, 3), "pathname_exists": rng.random() < 0.8,
           # %L: git's conflict marker size (the conflict-marker-size attribute, +2 per level of a recursive merge)
           "marker": rng.choice(["7", "7", "7", "9", "10", "32", "3"])}
+    if entry == "nbmerge" and shape == "plain" and not many and rng.random() < cfg.get("p_base_fifo", 0.05):
+        sc["base_fifo"] = True
     if many:
         sc["shape"], sc["many_conflicts"] = "plain", True
         sc["triple"] = {"base": base, "local": local, "remote": remote}
@@ -166,6 +169,7 @@ def one_pass(sc, plan, line_total=None, count_lines=False, scratch=None):
     log = EventLog(keep=False)
     log.add_subst(w.root, "$S")
     paths = {}
+    fifo_writer, fifo_src = [], {}
     for name in ("base", "local", "remote"):
         v = sc["triple"][name]
         p = os.path.join(w.work, name + ".ipynb")
@@ -189,9 +193,20 @@ def one_pass(sc, plan, line_total=None, count_lines=False, scratch=None):
                     {"cell_type": "code", "language": "python", "metadata": {}, "collapsed": False, "input": "x = 1", "outputs": [], "prompt_number": 1}],
                     "metadata": {}}]}, f)
         else:
-            with open(p, "w", encoding="utf8") as f:
+            target = p
+            if name == "base" and sc.get("base_fifo"):
+                # the base arrives through a pipe (`nbmerge <(git show :1:nb.ipynb) local remote`): a named pipe fed by a
+                # real writer process, which blocks until the program under test opens it
+                target = os.path.join(w.work, "base.src.ipynb")
+            with open(target, "w", encoding="utf8") as f:
                 json.dump(v, f, indent=1)
                 f.write("\n")
+            if target != p:
+                os.mkfifo(p)
+                from simkit.world import _REAL_POPEN, REAL
+                fifo_writer.append(_REAL_POPEN([REAL["sh"], "-c", 'exec "$0" "$1" > "$2"', REAL["cat"], target, p],
+                                               stdin=subprocess.DEVNULL, stdout=subprocess.DEVNULL, stderr=subprocess.DEVNULL))
+                fifo_src["base"] = target
         paths[name] = p
     # git hands a merge driver three temporaries written in the same instant: give the inputs one modification time
     for q in paths.values():
@@ -231,7 +246,7 @@ def one_pass(sc, plan, line_total=None, count_lines=False, scratch=None):
                 out.append(_canon_nb(objs[-1]))
                 continue
             try:
-                objs.append(nbformat.read(paths[name], as_version=4))     # (kept as read: conversion of old formats
+                objs.append(nbformat.read(fifo_src.get(name, paths[name]), as_version=4))     # (kept as read: conversion of old formats
                 out.append(_canon_nb(objs[-1]))                          #  yields other Python types than a JSON round trip)
             except Exception as e:
                 objs.append(None)
@@ -362,6 +377,11 @@ def one_pass(sc, plan, line_total=None, count_lines=False, scratch=None):
         pp.Popen = saved_pp_popen
         fs.uninstall()
         app.merge_notebooks = orig_merge
+        for pr in fifo_writer:
+            # (still blocked if the program never opened the pipe)
+            if pr.poll() is None:
+                pr.kill()
+            pr.wait()
     independent = None
     if not plan and not count_lines and not any(isinstance(x, dict) and "__unreadable__" in x for x in expected_inputs):
         # what the library merge returns for these three notebooks and these strategy flags, computed by the harness
